@@ -160,6 +160,7 @@ func runC06(c C06Case) *Result {
 	// the late joiner and the slots it can be expected to prove: what it verified with remember or was
 	// told to remember (a full forest: everything added) since it exists, minus what was spent
 	var late *Inst
+	lateDepth := 0 // blocks on the undo stack that were applied before the joiner existed
 	lateTracked := map[int]bool{}
 	lateCheck := func(when string) error {
 		if late == nil {
@@ -194,6 +195,7 @@ func runC06(c C06Case) *Result {
 				extStores(&m)
 			}
 			late = &Inst{Cfg: *c.Late, M: &m}
+			lateDepth = len(stack)
 			res.class(fmt.Sprintf("late-joiner:full=%v", c.Late.Full))
 		}
 		switch st.Op {
@@ -308,8 +310,21 @@ func runC06(c C06Case) *Result {
 						delete(lateTracked, s)
 					}
 				}
-				for _, s := range fr.b.Del {
-					lateTracked[s] = true // restored from the undo record, proof included
+				if len(stack) < lateDepth {
+					// a block from before the joiner existed: whether the leaves this undo brings back count as
+					// remembered is not fixed by any statement (the forest never saw them); they are followed
+					// if the forest tracks them
+					lateDepth = len(stack)
+					for _, s := range fr.b.Del {
+						if _, ok := late.M.CachedLeaves.Get(fr.before.Hashes[s]); ok {
+							lateTracked[s] = true
+						}
+					}
+					res.count("late-joiner-undos-behind-its-snapshot", 1)
+				} else {
+					for _, s := range fr.b.Del {
+						lateTracked[s] = true // it had verified them with remember right before the block
+					}
 				}
 				res.count("late-joiner-undos", 1)
 			}
